@@ -183,6 +183,15 @@ def gridEqAsIs (a b : Grid) : Bool :=
   else if !(connEq a b) then false
   else true
 
+/-- a *projection-comparing* variant (NOT what the code does; kept as the model of a plausible
+    rewrite): coordinates and connectivity compared as flattened sequences only, the 2-D shape
+    `(nFace, width)` dropped.  `Props/C20.lean: flatten_blind_wrong`. -/
+def gridEqFlat (a b : Grid) : Bool :=
+  if a.spec != b.spec then false
+  else if !(lonEq a b && latEq a b) then false
+  else if !(arrEq intEq a.conn b.conn) then false
+  else true
+
 /-- right operand of `==`: a grid or anything else (the tag only names the kind of object). -/
 inductive Obj where
   | grid (g : Grid)
